@@ -192,6 +192,13 @@ def run(R):
                 e = ('rep', elem, lo, hi)
                 add_group('sugar-vs-constructor', [f'start = {render(e, "sugar")}\nX = "a" | "ba"\n',
                                                    f'start = {render(e, "ctor")}\nX = "a" | "ba"\n'], texts=runs)
+    # bounds that are NAMES (a let variable, a template parameter): both spellings, every form
+    for lo, hi in (('n', 'n'), (None, 'n'), ('n', None), (1, 'n'), ('n', 3), (0, 'n'), ('n', 'm')):
+        e = ('rep', ('lit', 'a'), lo, hi)
+        nruns = [d + r for d in ('0', '1', '2', '3') for r in ('', 'a', 'aa', 'aaa', 'aaaa', 'ab')]
+        for wrap in ('start = let n = N in let m = `n + 1` in [{b}, /[ab]*/]\nN = /[0-9]/ |> `int`\n',
+                     'start = let k = N in T(k, `k + 1`)\nT(n, m) = [{b}, /[ab]*/]\nN = /[0-9]/ |> `int`\n'):
+            add_group('sugar-vs-constructor', [wrap.format(b=render(e, 'sugar')), wrap.format(b=render(e, 'ctor'))], texts=nruns, structural=False)
     for e in terms(rnd, 60 if quick else 1000):
         if not G.well_formed(e, G.RULES_NULLABLE):
             continue
